@@ -15,26 +15,6 @@ end DafRel
 
 namespace DafRel
 
-def Rel.isAtom : Rel → Bool
-  | .leaf .. => true
-  | .mat .. => true
-  | .transfer .. => true
-  | _ => false
-
-/-- Trees the SQL engine's tree building is shown sound on: raw join-free trees, coherent Selects
-whose UNION branches are again such trees, and anything built from those. -/
-inductive Good (σ : Leaves) : Rel → Prop
-  | atom (r : Rel) : r.isAtom = true → r.WF → r.Truthful σ → r.engine.kind = .sql → Good σ r
-  | unary (op : UOp) (t : Rel) (c : Cols) : Good σ t → (Rel.unary op t c).WF → Good σ (.unary op t c)
-  | chain (l r : Rel) (c : Cols) : Good σ l → Good σ r → (Rel.binary .chain l r c).WF →
-      Good σ (.binary .chain l r c)
-  | join (j : JoinOp) (l r : Rel) (c : Cols) : Good σ l → Good σ r → (Rel.binary (.join j) l r c).WF →
-      j.pred.columnsRequired.subset (l.columns.union r.columns) = true → l.engine = r.engine →
-      Good σ (.binary (.join j) l r c)
-  | sel (S : Rel) : SelOK σ S → S.engine.kind = .sql →
-      (∀ l r c, S.skipTo = .binary .chain l r c → Good σ l) →
-      (∀ l r c, S.skipTo = .binary .chain l r c → Good σ r) → Good σ S
-
 theorem Good.props {σ : Leaves} {t : Rel} (h : Good σ t) : t.WF ∧ t.Truthful σ ∧ t.engine.kind = .sql := by
   induction h with
   | atom r _ hw ht he => exact ⟨hw, ht, he⟩
